@@ -607,3 +607,25 @@ def replay_main(driver_cls, path):
         print("other violation:", v)
     print("not reproduced")
     return 0
+
+
+def determinism_main(driver_cls, n, base_seed):
+    """determinism gate: every seed is run twice in different worker processes, once in a pool of
+    16 and once in a pool of 3; history hashes (and verdicts) must match pairwise"""
+    driver = driver_cls()
+    for fl in getattr(driver, "flavours", ["plain"]):
+        jbuild.build(fl)
+    seeds = [mix64(base_seed, driver.prop, "det", i) % (1 << 48) for i in range(n)]
+    out = []
+    for workers in (16, 3):
+        with mp.Pool(workers, initializer=_worker_init, initargs=(driver_cls, [])) as pool:
+            res = pool.map(_worker_run, [(s, "quick") for s in seeds], chunksize=1)
+        out.append({r["seed"]: (r.get("hist"), tuple(sorted(v[0] for v in r.get("violations", []))), r.get("outcome"))
+                    for r in res if "harness_error" not in r})
+    bad = [s for s in seeds if out[0].get(s) != out[1].get(s)]
+    san = [s for s in bad if (out[0].get(s) or ("", (), ""))[2] in ("sanitizer",) or str((out[0].get(s) or ("", (), ""))[2]).startswith("crash")]
+    print("%s determinism: %d seeds x 2 runs (pools of 16 and 3): %d mismatches (%d of them in runs that ended in a memory error)"
+          % (driver.prop, len(seeds), len(bad), len(san)))
+    for s in bad[:10]:
+        print("  seed", s, out[0].get(s), out[1].get(s))
+    return 0 if len(bad) == len(san) else 2
